@@ -122,6 +122,12 @@ pub fn run(ctx: &Ctx) -> Report {
             check(&u, &format!("{}:uniform-m", case), rep);
             rep.count("uniform_measure_variants", 1);
         }
+        // the same shape with NaN coordinates on some vertices (x and y, x only, y only)
+        if !gen::is_point(t) {
+            let u = crate::shapes::with_nan_xy(&s, 1 + (i + l) % 3, ((i + p) % 3) as u8);
+            check(&u, &format!("{}:nan-xy", case), rep);
+            rep.count("nan_coordinate_variants", 1);
+        }
     });
     // ---- shapes that do not come out of a constructor: polygons converted from polylines
     //      (rings left open) and shapes decoded from foreign-layout files (unclosed rings, empty
